@@ -139,6 +139,13 @@ theorem foldl_or_getLsbD {α : Type} (f : α → BB) (l : List α) (z : BB) (j :
   | nil => simp
   | cons a l ih => simp [List.foldl_cons, ih, BitVec.getLsbD_or, Bool.or_assoc]
 
+theorem any_congr_mem {α : Type} {l : List α} {p q : α → Bool} (h : ∀ a ∈ l, p a = q a) : l.any p = l.any q := by
+  induction l with
+  | nil => rfl
+  | cons a l ih =>
+    simp only [List.any_cons]
+    rw [h a (by simp), ih (fun b hb => h b (by simp [hb]))]
+
 theorem attacksBy_mirror (c : Color) (p : Piece) :
     (mirrorInput i).attacksBy c p = flipBB (i.attacksBy c.flip p) := by
   apply BitVec.eq_of_getLsbD_eq
@@ -146,8 +153,9 @@ theorem attacksBy_mirror (c : Color) (p : Piece) :
   rw [flipBB_getLsbD _ _ hj]
   unfold EvalInput.attacksBy
   rw [foldl_or_getLsbD, foldl_or_getLsbD, (bits_own_mirror i c p).any_eq, List.any_map]
-  simp only [BitVec.getLsbD_zero, Bool.false_or]
-  apply List.any_congr  -- pointwise on members
+  have hz : ∀ k, (0 : BB).getLsbD k = false := fun k => by simp
+  rw [hz, hz, Bool.false_or, Bool.false_or]
+  apply any_congr_mem
   intro s hs
   simp only [Function.comp]
   rw [pieceAttacks_mirror i p s (bits_lt hs), flipBB_getLsbD _ _ hj]
